@@ -223,6 +223,88 @@ fn big_spacing_case(rng: &mut Rng, g: &ValueGen) -> (Value, Options) {
 	(v, o)
 }
 
+fn long_string_case(rng: &mut Rng) -> (Value, Options) {
+	let multi = ["\u{e9}", "\u{20ac}", "\u{1f600}", "\u{800}", "\u{fff}"];
+	let esc = ["\"", "\\", "\n", "\t", "\u{1}", "\u{1f}", "\u{8}"];
+	let mut mk = |rng: &mut Rng| -> String {
+		let target = [30usize, 33, 40, 249, 251, 253, 256, 260, 300][rng.below(9)];
+		let mut s = String::new();
+		// extra bytes of multi-byte characters vs extra characters of escapes
+		let (mut extra_bytes, mut extra_chars) = (0i64, 0i64);
+		let balanced = rng.chance(1, 2);
+		while s.len() < target {
+			match rng.below(6) {
+				0 => {
+					let m = multi[rng.below(multi.len())];
+					extra_bytes += m.len() as i64 - 1;
+					s.push_str(m);
+				}
+				1 => {
+					let e = esc[rng.below(esc.len())];
+					extra_chars += match e { "\u{1}" | "\u{1f}" => 5, _ => 1 };
+					s.push_str(e);
+				}
+				_ => s.push((b'a' + rng.below(26) as u8) as char),
+			}
+		}
+		if balanced {
+			// top up with one-extra units until both sides are equal
+			while extra_bytes < extra_chars {
+				s.push('\u{e9}');
+				extra_bytes += 1;
+			}
+			while extra_chars < extra_bytes {
+				s.push('"');
+				extra_chars += 1;
+			}
+		}
+		if rng.chance(1, 3) {
+			// a multi-byte character straddling a 251 / 256 byte mark
+			let mut t = "a".repeat([249usize, 250, 254, 255][rng.below(4)]);
+			t.push_str(multi[rng.below(multi.len())]);
+			t.push_str(&s[..s.char_indices().nth(5).map(|x| x.0).unwrap_or(0)]);
+			return t;
+		}
+		s
+	};
+	let a = mk(rng);
+	let b = mk(rng);
+	let v = match rng.below(3) {
+		0 => Value::String(a.as_str().into()),
+		1 => Value::Object(vec![json_syntax::object::Entry::new(a.as_str().into(), Value::String(b.as_str().into())), json_syntax::object::Entry::new(b.as_str().into(), Value::Null)].into_iter().collect()),
+		_ => Value::Array(vec![Value::String(a.as_str().into()), Value::String(b.as_str().into())]),
+	};
+	let o = match rng.below(4) {
+		0 => Options::compact(),
+		1 => Options::pretty(),
+		2 => Options::inline(),
+		_ => random_options(rng),
+	};
+	(v, o)
+}
+
+/// 66..71 small containers under one root; `compact`: the compact preset (else a layout that expands every container)
+fn many_containers_case(rng: &mut Rng, compact: bool) -> (Value, Options) {
+	let n = 66 + rng.below(6);
+	let items: Vec<Value> = (0..n)
+		.map(|i| match i % 3 {
+			0 => Value::Array(vec![Value::Null, Value::Boolean(true)]),
+			1 => Value::Object(vec![json_syntax::object::Entry::new("k".into(), Value::Array(vec![]))].into_iter().collect()),
+			_ => Value::Array(vec![Value::Array(vec![Value::Null])]),
+		})
+		.collect();
+	let v = if rng.chance(1, 2) { Value::Array(items) } else { Value::Object(items.into_iter().enumerate().map(|(i, x)| json_syntax::object::Entry::new(format!("k{i}").as_str().into(), x)).collect()) };
+	let o = if compact {
+		Options::compact()
+	} else {
+		let mut o = Options::pretty();
+		o.array_limit = Some(Limit::Always);
+		o.object_limit = Some(Limit::Item(0));
+		o
+	};
+	(v, o)
+}
+
 /// every container of `v`, in pre-order
 fn containers<'a>(v: &'a Value, out: &mut Vec<&'a Value>) {
 	match v {
@@ -286,13 +368,19 @@ pub fn record(args: &Args) {
 	let g = rich_gen();
 	let mut lines = vec![];
 	for i in 0..n {
-		let (v, o) = match i % 25 {
+		let (v, o) = match if i % 125 == 13 || i % 125 == 14 { 100 + i % 125 } else if i % 25 == 13 || i % 25 == 14 { 0 } else { i % 25 } {
 			// a spine nested deep enough for the indentation to pass 32 / 64 columns, every ancestor expanded
 			7 | 19 => deep_case(&mut rng, &g),
 			// spacing fields and indent units far beyond the usual 0..3 (16, 31..33, 63..65, 100)
 			11 => big_spacing_case(&mut rng, &g),
 			// a width limit placed within a few columns of the real one-line width of some container of the value
 			3 | 9 | 15 | 21 => boundary_case(&mut rng, &g),
+			// long strings / keys (beyond 32, 251 and 256 bytes) mixing escapes and multi-byte characters, some of them
+			// "balanced": the extra bytes of the multi-byte characters equal the extra characters of the escapes
+			5 | 17 => long_string_case(&mut rng),
+			// many containers (more than 64), printed expanded and then - next event, same thread - compact
+			113 => many_containers_case(&mut rng, false),
+			114 => many_containers_case(&mut rng, true),
 			_ => {
 				let v = g.value(&mut rng, 1 + i % 4);
 				let o = match i % 10 {
